@@ -155,6 +155,61 @@ pub fn run(o: &Opts) -> Report {
         let model = driver_batch(&o.driver, &reqs, o.par);
         for ((req, m), i) in reqs.iter().zip(model.iter()).zip(impls.iter()) { if m != i { rep.disagree("parse", req, m, i); } }
     }
+    {
+        use crate::pcorr::*;
+        use clap::parser::ValueSource;
+        // a user-defined subcommand that happens to be called `help` (the generated one is disabled) is a level like any
+        // other: the parent's globals are defined there
+        let mkh = || { let mut c = CmdS { name: "prog".into(), ..Default::default() };
+            c.settings.disable_help_subcommand = true;
+            c.args.push(ArgS { id: "verbose".into(), short: Some('v'), long: Some("verbose".into()), action: Some("count"), global: true, ..Default::default() });
+            c.args.push(ArgS { id: "format".into(), long: Some("format".into()), action: Some("set"), global: true, ..Default::default() });
+            let mut h = CmdS { name: "help".into(), ..Default::default() };
+            h.args.push(ArgS { id: "topic".into(), ..Default::default() });
+            let mut man = CmdS { name: "man".into(), ..Default::default() };
+            man.subs.push(CmdS { name: "search".into(), ..Default::default() });
+            c.subs.push(h); c.subs.push(man); c };
+        let cases: Vec<(CmdS, Vec<Vec<u8>>, Expect)> = vec![
+            (mkh(), bv(&["prog", "help", "-v", "topic"]), Box::new(|m| { want_occs(m, &["help"], "verbose", &[&["1"]])?; want_occs(m, &[], "verbose", &[&["1"]])?; want_occs(m, &["help"], "topic", &[&["topic"]]) })),
+            (mkh(), bv(&["prog", "-vv", "help", "topic"]), Box::new(|m| { want_occs(m, &["help"], "verbose", &[&["2"]])?; want_occs(m, &[], "verbose", &[&["2"]]) })),
+            (mkh(), bv(&["prog", "help", "--format", "yaml"]), Box::new(|m| { want_occs(m, &["help"], "format", &[&["yaml"]])?; want_occs(m, &[], "format", &[&["yaml"]]) })),
+            (mkh(), bv(&["prog", "man", "search", "--format", "yaml"]), Box::new(|m| { want_occs(m, &["man", "search"], "format", &[&["yaml"]])?; want_occs(m, &[], "format", &[&["yaml"]]) })),
+        ];
+        run_expect(&mut rep, o, "global-not-defined-at-a-level", cases);
+        // real crate only (the command-level switches `Command::allow_hyphen_values` / `allow_negative_numbers` are not in
+        // the model): they concern the args of the level that sets them; a global handed down to a subcommand is parsed
+        // there by the subcommand's own rules
+        {
+            use clap::{Arg, ArgAction, Command};
+            let mk = || Command::new("prog").allow_hyphen_values(true).allow_negative_numbers(true)
+                .arg(Arg::new("color").long("color").global(true).action(ArgAction::Set).num_args(0..=1).default_missing_value("always"))
+                .arg(Arg::new("level").long("level").global(true).action(ArgAction::Set))
+                .subcommand(Command::new("run").arg(Arg::new("x").short('x').action(ArgAction::SetTrue))
+                    .subcommand(Command::new("deep").arg(Arg::new("y").short('y').action(ArgAction::SetTrue))));
+            let get = |m: &clap::ArgMatches, path: &[&str], id: &str| -> Option<(Option<ValueSource>, Vec<String>)> {
+                let mut cur = m; for p in path { cur = cur.subcommand_matches(p)?; }
+                Some((cur.value_source(id), cur.get_raw(id).map(|r| r.map(|v| v.to_string_lossy().to_string()).collect()).unwrap_or_default())) };
+            let mut chk = |argv: &[&str], f: &dyn Fn(Result<&clap::ArgMatches, clap::error::ErrorKind>) -> Result<(), String>| {
+                let key = format!("command-level-hyphen-switch argv={argv:?}");
+                let av: Vec<String> = argv.iter().map(|x| x.to_string()).collect();
+                rep.case(&key, true); rep.count("shape:command-level-hyphen-switch");
+                match std::panic::catch_unwind(|| mk().try_get_matches_from(av)) {
+                    Err(_) => rep.oracle_fail("panic", &key, "parse panicked"),
+                    Ok(r) => { let v = match &r { Ok(m) => Ok(m), Err(e) => Err(e.kind()) }; if let Err(msg) = f(v) { rep.oracle_fail("parent-switch-leaks-into-a-subcommand's-globals", &key, &msg); } }
+                }
+            };
+            chk(&["prog", "run", "--color", "-x"], &|r| { let m = r.map_err(|k| format!("rejected: {k:?}"))?;
+                let c = get(m, &["run"], "color"); let x = m.subcommand_matches("run").map(|s| s.get_flag("x"));
+                if c != Some((Some(ValueSource::CommandLine), vec!["always".to_string()])) || x != Some(true) { return Err(format!("color at run = {c:?}, x = {x:?}; expected always / true")); }
+                if get(m, &[], "color") != c { return Err(format!("color differs between levels: {:?} vs {c:?}", get(m, &[], "color"))); } Ok(()) });
+            chk(&["prog", "run", "deep", "--color", "-y"], &|r| { let m = r.map_err(|k| format!("rejected: {k:?}"))?;
+                let c = get(m, &["run", "deep"], "color"); let y = m.subcommand_matches("run").and_then(|s| s.subcommand_matches("deep")).map(|s| s.get_flag("y"));
+                if c != Some((Some(ValueSource::CommandLine), vec!["always".to_string()])) || y != Some(true) { return Err(format!("color at deep = {c:?}, y = {y:?}")); } Ok(()) });
+            chk(&["prog", "run", "--level", "-5"], &|r| match r { Err(_) => Ok(()), Ok(m) => Err(format!("accepted: level at run = {:?}", get(m, &["run"], "level"))) });
+            chk(&["prog", "--level", "-5", "run"], &|r| { let m = r.map_err(|k| format!("rejected: {k:?}"))?;
+                let l = get(m, &["run"], "level"); if l != Some((Some(ValueSource::CommandLine), vec!["-5".to_string()])) { return Err(format!("level at run = {l:?}")); } Ok(()) });
+        }
+    }
     crate::pcorr::run_generic(&mut rep, o, 0xC09);
     rep
 }
